@@ -571,6 +571,57 @@ def render_cli_source(s, stripped=False, keep=None):
     return "\n".join(lines) + "\n"
 
 
+ATTR_TEXT = {"serde": '#[serde(rename = "x")]', "token_kind": "#[token_kind(1)]", "logos_ext": "#[logos_ext::skip]"}
+
+
+def render_cli_item(s, vattrs, eattrs):
+    """Part 1b of Cli.tla: the enum item with the given attributes of the enum and of variant V1 (the stripped form is the
+    same rendering with the kept attributes only)."""
+    cb = {"unit": "", "disc": "", "tuple": ", |_| 1u32", "tuple_attr": ", |_| 1u32"}[s["field"]]
+    lines = ["#[derive(Debug, Logos)]" if "logos" in eattrs else "#[derive(Debug)]"]
+    if s["field"] == "disc":
+        lines.append("#[repr(u8)]")
+    first = True
+    for a in eattrs:
+        if a == "logos":
+            lines.append('#[logos(skip " ")]' if first else "#[logos(extras = u32)]")
+            first = False
+        else:
+            lines.append(ATTR_TEXT[a].replace("#[serde(rename", "#[serde(tag"))
+    stripped = "logos" not in eattrs
+    if s["gen"] in ("ty", "ty_where") and not stripped:
+        lines.append("#[logos(type T = u32)]")
+    vis = {"pub": "pub ", "priv": "", "crate": "pub(crate) "}[s["vis"]]
+    gen = {"none": "", "lt": "<'s>", "ty": "<T: Default>", "ty_where": "<T>"}[s["gen"]]
+    where = " where T: Default" if s["gen"] == "ty_where" else ""
+    lines.append("%senum Tok%s%s {" % (vis, gen, where))
+    k = 0
+    for a in vattrs:
+        if a == "token":
+            k += 1
+            lines.append('    #[token("k%d"%s)]' % (k, cb))
+        elif a == "regex":
+            k += 1
+            lines.append('    #[regex("r%d+"%s)]' % (k, cb))
+        else:
+            lines.append("    " + ATTR_TEXT[a])
+    lines.append({"unit": "    V1,", "disc": "    V1 = 7,", "tuple": "    V1(u32),", "tuple_attr": "    V1(#[serde(skip)] u32),"}[s["field"]])
+    if not stripped:
+        lines.append('    #[token("zz")]')
+    lines.append("    /// kept")
+    lines.append("    Z,")
+    if s["gen"] == "lt":
+        if not stripped:
+            lines.append('    #[regex("q+")]')
+        lines.append("    Q(&'s str),")
+    elif s["gen"] != "none":
+        if not stripped:
+            lines.append('    #[token("t", |_| Default::default())]')
+        lines.append("    T1(T),")
+    lines.append("}")
+    return "\n".join(lines) + "\n"
+
+
 def cli_run(tier, seed):
     t0 = time.time()
     maxops = 3 if tier == "quick" else 4
@@ -580,9 +631,15 @@ def cli_run(tier, seed):
     recs = list(tlc_records(res))
     strips = [r[2] for r in recs if r[0] == "STRIP"]
     files = [r[2] for r in recs if r[0] == "FILES"]
+    enum_items = [r[2] for r in recs if r[0] == "ITEM"]
+    if not enum_items:
+        raise ToolError("Cli.tla printed no ITEM records")
     rng = random.Random(seed + 17)
     if tier == "quick" and len(strips) > 1600:
         strips = rng.sample(strips, 1600)
+    n_enum_items = len(enum_items)
+    if len(enum_items) > (1200 if tier == "quick" else 12000):
+        enum_items = rng.sample(enum_items, 1200 if tier == "quick" else 12000)
     cli = build_cli()
     wd = os.path.join(workdir(), "cli-%d" % os.getpid())
     shutil.rmtree(wd, ignore_errors=True)
@@ -599,6 +656,18 @@ def cli_run(tier, seed):
             f.write(src.replace("\n", "\r\n") if s.get("eol") == "crlf" else src)
         p = subprocess.run([cli, inp], capture_output=True, text=True)
         key = "strip:%s|%s%s|%s|%s|%d" % (",".join(s["first"]), "T" if s["trailing"] else "-", ("t" if s.get("sep") == "tight" else "") + ("r" if s.get("eol") == "crlf" else ""), ",".join(s["second"]), s["extras"], s["nlogos"])
+        if p.returncode != 0:
+            findings.append({"key": key, "what": "logos-cli failed (exit %d): %s" % (p.returncode, p.stderr[-300:]), "source": src})
+            continue
+        items.append({"id": key, "src": src, "stdout": p.stdout, "expect": exp})
+    for c in enum_items:
+        s = c["src"]
+        src = render_cli_item(s, s["vattrs"], s["eattrs"])
+        exp = render_cli_item(s, c["vkeep"], c["ekeep"])
+        with open(inp, "w", newline="") as f:
+            f.write(src)
+        p = subprocess.run([cli, inp], capture_output=True, text=True)
+        key = "item:%s|%s|%s|%s|%s" % (s["vis"], s["gen"], s["field"], ",".join(s["vattrs"]), ",".join(s["eattrs"]))
         if p.returncode != 0:
             findings.append({"key": key, "what": "logos-cli failed (exit %d): %s" % (p.returncode, p.stderr[-300:]), "source": src})
             continue
@@ -622,6 +691,11 @@ def cli_run(tier, seed):
     if p.returncode != 0 or current.count("\n") < 1 or len(current) < 40:
         raise ToolError("logos-cli output for the file histories is not a multi-line text: exit %d, %r" % (p.returncode, current[:200]))
 
+    pf = subprocess.run([cli, inp, "--format"], capture_output=True, text=True)
+    current_fmt = pf.stdout[:-1] if pf.stdout.endswith("\n") else pf.stdout      # println! adds one line break
+    if pf.returncode != 0 or current_fmt.count("\n") < 5 or current_fmt.rstrip("\n") == current.rstrip("\n"):
+        raise ToolError("logos-cli --format did not produce a formatted text (is rustfmt in PATH?): exit %d, %r" % (pf.returncode, pf.stderr[-200:]))
+
     def one_history(arg):
         wk, h = arg
         outp = os.path.join(wd, "out-%d.rs" % wk)
@@ -635,6 +709,10 @@ def cli_run(tier, seed):
                 rc = subprocess.run([cli, inp, "--output", outp], capture_output=True).returncode
             elif op == "check":
                 rc = subprocess.run([cli, inp, "--output", outp, "--check"], capture_output=True).returncode
+            elif op == "writef":
+                rc = subprocess.run([cli, inp, "--output", outp, "--format"], capture_output=True).returncode
+            elif op == "checkf":
+                rc = subprocess.run([cli, inp, "--output", outp, "--format", "--check"], capture_output=True).returncode
             elif op == "tamper":
                 if os.path.exists(outp):
                     with open(outp, "a") as f:
@@ -671,17 +749,19 @@ def cli_run(tier, seed):
                 st = "current"
             elif after.decode(errors="replace") == current + "\n":
                 st = "eol"
+            elif after.decode(errors="replace") == current_fmt:
+                st = "fmt"
             elif b"\r\n" in after and after.decode(errors="replace").replace("\r\n", "\n").rstrip("\n") == current.rstrip("\n"):
                 st = "crlf"
             else:
                 st = "stale"
             trail.append((op, rc, st))
             bad = None
-            if op in ("write", "check") and (rc != 0) != (exit_exp != 0):
+            if op in ("write", "check", "writef", "checkf") and (rc != 0) != (exit_exp != 0):
                 bad = "exit status %d, expected %s" % (rc, "0" if exit_exp == 0 else "non-zero")
             elif st != file_exp:
                 bad = "file is %s, expected %s" % (st, file_exp)
-            elif op == "check" and before != after:
+            elif op in ("check", "checkf") and before != after:
                 bad = "--check modified the file"
             if bad:
                 return len(trail), {"key": "files:" + ">".join(o[0] for o in h["hist"][: len(trail)]), "what": "after %s: %s" % (trail, bad), "source": src}
@@ -700,8 +780,8 @@ def cli_run(tier, seed):
                 if f:
                     findings.append(f)
     shutil.rmtree(wd, ignore_errors=True)
-    samples = [{"source": s["src"], "expected_stripped": s["expect"]} for s in items[:: max(1, len(items) // 3)][:3]] + [{"history": h["hist"]} for h in files[:2]]
-    return {"tlc": {k: res[k] for k in ("states", "distinct", "wall")}, "strip_cases": len(strips), "histories": len(files), "history_steps": n_steps,
+    samples = [{"source": s["src"], "expected_stripped": s["expect"]} for s in items[:: max(1, len(items) // 4)][:4]] + [{"history": h["hist"]} for h in files[:2]]
+    return {"tlc": {k: res[k] for k in ("states", "distinct", "wall")}, "strip_cases": len(strips), "item_cases": len(enum_items), "item_cases_enumerated": n_enum_items, "histories": len(files), "history_steps": n_steps,
             "findings": findings, "samples": samples, "wall": time.time() - t0}
 
 
